@@ -384,6 +384,10 @@ TARGETS = list(GL.TARGETS) + [
     ("src/bitvector/mod.rs", "BitVectorMut", "FromIterator#0::from_iter", "g_bvm_from_bools", {"T": "[bool]"}),
     ("src/bitvector/mod.rs", "BitVectorMut", "FromIterator#1::from_iter", "g_bvm_from_positions", {"T": "[usize]"}),
     ("src/bitvector/mod.rs", "BitVector", "FromIterator#0::from_iter", "g_bv_from_bools", {"T": "[bool]"}),
+    ("src/quadwt/huffqwt.rs", "HuffQWaveletTree", "rank_prefetch_unchecked", "g_hqwt256_rank_prefetch_unchecked", {"T": "@T", "RS": "RSQVector", "S": "RSSupportPlain", "B_SIZE": 256, "WITH_PREFETCH_SUPPORT": False}),
+    ("src/quadwt/huffqwt.rs", "HuffQWaveletTree", "rank_prefetch", "g_hqwt256_rank_prefetch", {"T": "@T", "RS": "RSQVector", "S": "RSSupportPlain", "B_SIZE": 256, "WITH_PREFETCH_SUPPORT": False}),
+    ("src/quadwt/huffqwt.rs", "HuffQWaveletTree", "rank_prefetch_unchecked", "g_hqwt512_rank_prefetch_unchecked", {"T": "@T", "RS": "RSQVector", "S": "RSSupportPlain", "B_SIZE": 512, "WITH_PREFETCH_SUPPORT": False}),
+    ("src/quadwt/huffqwt.rs", "HuffQWaveletTree", "rank_prefetch", "g_hqwt512_rank_prefetch", {"T": "@T", "RS": "RSQVector", "S": "RSSupportPlain", "B_SIZE": 512, "WITH_PREFETCH_SUPPORT": False}),
     # ---- group danew: construction of the DArray inventories
     ("src/darray/mod.rs", "Inventories", "flush_block", "g_da_flush_block", {}),
     ("src/darray/mod.rs", "Inventories", "new", "g_inv1_new", {"BIT": True}),
